@@ -91,13 +91,27 @@ def grammar_census(ctx, sites, which):
             ua = G.main_user_action(p["action"])
             if ua["kind"] != "user":
                 continue
-            try:
-                I, st, v, r = run_production(ctx, which, nt, k, overrides=ov)
-                sites.add_events(I.events, f"{which}: {G.prod_label(nt, k)}")
-                sites.units += 1
-                n += 1
-            except Unsupported as e:
-                sites.failed_units.append((f"{which}: {G.prod_label(nt, k)}", str(e)))
+            # numeric children: one run per combination of their alternatives (decimal / hex / binary ...), so that each
+            # value keeps its exact range; the join over the alternatives is used only when there are too many combinations
+            num_syms = [(i, s_["name"]) for i, s_ in enumerate(p["symbols"]) if s_["t"] == "nt" and s_["name"] not in ov and len(G.productions(s_["name"])) > 1]
+            combos = [()]
+            for i, nm in num_syms:
+                combos = [c + ((i, kk),) for c in combos for kk in range(len(G.productions(nm)))]
+                if len(combos) > 48:
+                    combos = [()]
+                    break
+            for combo in combos:
+                pick = {(i,): kk for i, kk in combo}
+
+                def chooser(path, n_, prods, pick=pick):
+                    return pick.get(tuple(path))
+                try:
+                    I, st, v, r = run_production(ctx, which, nt, k, chooser=chooser, overrides=ov)
+                    sites.add_events(I.events, f"{which}: {G.prod_label(nt, k)}")
+                    sites.units += 1
+                    n += 1
+                except Unsupported as e:
+                    sites.failed_units.append((f"{which}: {G.prod_label(nt, k)}", str(e)))
     return n
 
 
